@@ -16,33 +16,66 @@ X0, Y0, DX, DY, MUST = cfg.get('limits', [1.0, 1.0, 0.0, 0.0, 1.5])
 inputs = (MultiprocessingInput('x', 'X value', X0, float(n1) + DX, 'linear', mk([]), n1), MultiprocessingInput('y', 'Y value', Y0, float(n2) + DY, 'linear', mk([MUST]), n2))
 sdir = os.path.join(td, 'study')
 out = {'restart_exception': None}
-open(os.path.join(cdir, 'PHASE'), 'w').write('1')
-r1 = multiprocessing_run(sdir, 'demo', c18_study.study, inputs, force_restart=False, verbose=False, max_procs=4, perform_memory_check=False)
-# remove the effects that did not happen: per case i the effects are, in order, as listed in cfg['steps'] (names from the symbolic run)
+runs = cfg.get('runs') or [{'k': cfg['k'], 'effects': {}}]
 steps = {int(s): w for s, w in cfg.get('steps', {}).items()}
-for d in glob.glob(os.path.join(sdir, 'index_*_run_*')):
-    i = int(d.split('_run_')[-1])
-    ki = cfg['k'].get(str(i), 99)
-    for s, w in steps.items():
-        if s < ki:
-            continue
-        if w.startswith('mkdir'):
-            shutil.rmtree(d, ignore_errors=True)
-        elif w.startswith('create mp_success') and os.path.isdir(d):
-            p = os.path.join(d, 'mp_success.log')
-            if os.path.exists(p):
-                os.remove(p)
-        elif w.startswith('savez') and os.path.isdir(d):
-            p = os.path.join(d, 'mp_results.npz')
-            if os.path.exists(p):
-                os.remove(p)
-completed1 = [int(d.split('_run_')[-1]) for d in glob.glob(os.path.join(sdir, 'index_*_run_*')) if os.path.isfile(os.path.join(d, 'mp_success.log')) and os.path.isfile(os.path.join(d, 'mp_results.npz'))]
-open(os.path.join(cdir, 'PHASE'), 'w').write('2')
-try:
-    r2 = multiprocessing_run(sdir, 'demo', c18_study.study, inputs, force_restart=False, verbose=False, max_procs=4, perform_memory_check=False)
-except BaseException as e:
-    out['restart_exception'] = '%s: %s' % (type(e).__name__, str(e)[:150])
-    r2 = None
+default_effects = [steps[s] for s in sorted(steps)]
+
+
+def completed_now():
+    return set(int(d.split('_run_')[-1]) for d in glob.glob(os.path.join(sdir, 'index_*_run_*')) if os.path.isfile(os.path.join(d, 'mp_success.log')) and os.path.isfile(os.path.join(d, 'mp_results.npz')))
+
+
+def executed_in(phase):
+    return set(int(f.split('_run_')[-1].split('.')[0]) for f in os.listdir(cdir) if f.endswith('.%d' % phase) and '_run_' in f)
+
+
+completed_before = set()
+reexec = set()
+r2 = None
+for r, run in enumerate(runs, start=1):
+    # interrupted run r: a complete REAL run, then every effect the model says did not happen is removed again (effects of case i in this run, in order: run['effects'][i])
+    open(os.path.join(cdir, 'PHASE'), 'w').write(str(r))
+    try:
+        multiprocessing_run(sdir, 'demo', c18_study.study, inputs, force_restart=False, verbose=False, max_procs=4, perform_memory_check=False)
+    except BaseException as e:
+        if r == 1:
+            raise
+        out['restart_exception'] = 'run %d (a restart that is itself interrupted later): %s: %s' % (r, type(e).__name__, str(e)[:150])
+        break
+    ex_r = executed_in(r) if r > 1 else None
+    if ex_r is not None:
+        reexec |= (ex_r & completed_before)
+    for d in glob.glob(os.path.join(sdir, 'index_*_run_*')):
+        i = int(d.split('_run_')[-1])
+        if ex_r is not None and i not in ex_r:
+            continue                                   # not touched by this run
+        ki = run['k'].get(str(i), 99)
+        effs = run.get('effects', {}).get(str(i)) or default_effects
+        for s_, w in enumerate(effs):
+            if s_ < ki:
+                continue
+            if w.startswith('mkdir'):
+                shutil.rmtree(d, ignore_errors=True)
+            elif w.startswith('create mp_success') and os.path.isdir(d):
+                p = os.path.join(d, 'mp_success.log')
+                if os.path.exists(p):
+                    os.remove(p)
+            elif w.startswith('savez') and os.path.isdir(d):
+                p = os.path.join(d, 'mp_results.npz')
+                if os.path.exists(p):
+                    os.remove(p)
+    completed_before |= completed_now()
+completed1 = sorted(completed_before)
+final = len(runs) + 1
+if out['restart_exception'] is None:
+    open(os.path.join(cdir, 'PHASE'), 'w').write(str(final))
+    try:
+        r2 = multiprocessing_run(sdir, 'demo', c18_study.study, inputs, force_restart=False, verbose=False, max_procs=4, perform_memory_check=False)
+    except BaseException as e:
+        out['restart_exception'] = '%s: %s' % (type(e).__name__, str(e)[:150])
+        r2 = None
+    if r2 is None and out['restart_exception'] is None:
+        out['restart_exception'] = 'multiprocessing_run returned None (the pool aborted)'
 xs = list(np.linspace(X0, float(n1) + DX, n1)); ys = sorted(set(list(np.linspace(Y0, float(n2) + DY, n2)) + [MUST]))
 want = {(i, j): xs[i] * 1000.0 + ys[j] for i in range(len(xs)) for j in range(len(ys))}
 seen = {}
@@ -65,8 +98,8 @@ if r2 is not None:
 out['one_per_case'] = r2 is not None and set(seen) == set(want) and all(len(v) == 1 for v in seen.values())
 out['caseno_wrong'] = caseno_wrong[:6]
 out['value_wrong'] = value_wrong[:6]
-re2 = [int(f.split('_run_')[-1].split('.')[0]) for f in os.listdir(cdir) if f.endswith('.2') and '_run_' in f]
+re2 = executed_in(final)
 out['executed_in_restart'] = sorted(re2)
 out['completed_in_first_run'] = sorted(completed1)
-out['reexecuted_completed'] = sorted(set(re2) & set(completed1))
+out['reexecuted_completed'] = sorted((set(re2) & set(completed1)) | reexec)
 print('\n@@RESULT@@' + json.dumps(out))
